@@ -19,7 +19,7 @@ PKGS="${PDB_PKGS:--p parity-db}"
 cd "$REPO"
 CARGO_NET_OFFLINE=true \
 LD_LIBRARY_PATH="$SYSROOT/lib" \
-RUSTFLAGS="-Zmir-opt-level=0 -Awarnings" \
+RUSTFLAGS="-Zmir-opt-level=0 -Awarnings ${PDB_EXTRA_RUSTFLAGS:-}" \
 RUSTC_WORKSPACE_WRAPPER="$DRV" \
 PDB_FACTS_OUT="$OUT" \
 PDB_FACTS_CRATES="${PDB_FACTS_CRATES:-parity_db}" \
